@@ -589,6 +589,16 @@ impl nervusdb_query::WriteableGraph for WriteTxn<'_> {
             .map_err(|e| nervusdb_query::Error::Other(e.to_string()))
     }
 
+    fn create_node_auto_id(
+        &mut self,
+        proposed: ExternalId,
+        label_id: LabelId,
+    ) -> nervusdb_query::Result<InternalNodeId> {
+        self.inner
+            .create_node_auto_id(proposed, label_id)
+            .map_err(|e| nervusdb_query::Error::Other(e.to_string()))
+    }
+
     fn add_node_label(
         &mut self,
         node: InternalNodeId,
